@@ -264,9 +264,222 @@ def runCase (c : SimCase) : String :=
   let (outs, s) := go [] St.init [] c.reqs
   ";".intercalate outs ++ "|" ++ showKnown c.decl s
 
+/-! ## the extended protocol (what `handleSim` answers)
+
+```
+sim P … G … M … [RL …] MSL <k> [PAR <nPar> { <nVal> { <start ordinal> <value> } }] [OUT <n> <kind…>] V … I …
+    R <nR> { calc <v> <period> | add <v> <period> | div <v> <period> | out <v> <period> | get <v> <period>
+           | del <v> <period|*> | set <v> <period> <values…> | arm <id> | disarm <id> | reads | badp <v> }
+expr ::= … | o1 900 v <w> <pt> 0      floor(population(w, pt(period), options=[DIVIDE]))
+           | o1 901 v <i> <pt> 0      parameters(pt(period)).<parameter i>
+```
+(`OUT`: the `calculate_output` attribute of each variable, 0 none / 1 add / 2 divide; `out` is
+`Simulation.calculate_output`, answered like the request it forwards to.)
+Answers: `div` → `ok:<numerators…>/<denominator>`; `get` → `g:<values…>` | `g:none`; `del` → `-`;
+`set` → `-` (stored or ignored) | `ERR` (refused).  `tcalc` → `<res>#L:<node>=<result>><read>+…&…` (the log of `runL`: every calculation opened,
+chronologically).  `reads` lists, for every retained computed node,
+`<node>><read>+<read>…[$<param>:<instant ordinal>:<value>+…]`.
+-/
+
+inductive XReq
+  | calc (v : Nat) (p : Period)
+  | tcalc (v : Nat) (p : Period)     -- `calculate` with the whole trace of the request in the answer
+  | add (v : Nat) (p : Period)
+  | div (v : Nat) (p : Period)
+  | out (v : Nat) (p : Period)
+  | get (v : Nat) (p : Period)
+  | del (v : Nat) (p : Option Period)
+  | set (v : Nat) (p : Period) (x : Val)
+  | arm (id : Nat)
+  | disarm (id : Nat)
+  | reads
+  | badp (v : Nat)
+
+structure XSimCase where
+  x : XDecl
+  reqs : List XReq
+
+def pXReq (size : Nat → Option Nat) : Parser XReq
+  | "calc" :: r => do let (v, r) ← pNat r; let (p, r) ← pPeriod r; pure (.calc v p, r)
+  | "tcalc" :: r => do let (v, r) ← pNat r; let (p, r) ← pPeriod r; pure (.tcalc v p, r)
+  | "add" :: r => do let (v, r) ← pNat r; let (p, r) ← pPeriod r; pure (.add v p, r)
+  | "div" :: r => do let (v, r) ← pNat r; let (p, r) ← pPeriod r; pure (.div v p, r)
+  | "out" :: r => do let (v, r) ← pNat r; let (p, r) ← pPeriod r; pure (.out v p, r)
+  | "get" :: r => do let (v, r) ← pNat r; let (p, r) ← pPeriod r; pure (.get v p, r)
+  | "del" :: r => do
+    let (v, r) ← pNat r
+    match r with
+    | "*" :: r => pure (.del v none, r)
+    | _ => do let (p, r) ← pPeriod r; pure (.del v (some p), r)
+  | "set" :: r => do
+    let (v, r) ← pNat r
+    let (p, r) ← pPeriod r
+    let n ← size v
+    let (xs, r) ← pMany pInt n r
+    pure (.set v p xs, r)
+  | "arm" :: r => do let (i, r) ← pNat r; pure (.arm i, r)
+  | "disarm" :: r => do let (i, r) ← pNat r; pure (.disarm i, r)
+  | "reads" :: r => some (.reads, r)
+  | "badp" :: r => do let (v, r) ← pNat r; pure (.badp v, r)
+  | _ => none
+
+def pParam : Parser (List (Int × Int)) := fun ts => do
+  let (n, ts) ← pNat ts
+  let pOne : Parser (Int × Int) := fun ts => do
+    let (s, ts) ← pInt ts
+    let (v, ts) ← pInt ts
+    pure ((s, v), ts)
+  pMany pOne n ts
+
+def pXCase : Parser XSimCase := fun ts => do
+  let (_, ts) ← pTok "P" ts
+  let (nP, ts) ← pNat ts
+  let (_, ts) ← pTok "G" ts
+  let (nG, ts) ← pNat ts
+  let (_, ts) ← pTok "M" ts
+  let (mem, ts) ← pMany pNat nP ts
+  let (roles, ts) ← (match ts with
+    | "RL" :: r => pMany pNat nP r
+    | _ => some ([], ts))
+  let (_, ts) ← pTok "MSL" ts
+  let (msl, ts) ← pNat ts
+  let (params, ts) ← (match ts with
+    | "PAR" :: r => do let (n, r) ← pNat r; pMany pParam n r
+    | _ => some ([], ts))
+  let (outputs, ts) ← (match ts with
+    | "OUT" :: r => do let (n, r) ← pNat r; pMany pNat n r
+    | _ => some ([], ts))
+  let (_, ts) ← pTok "V" ts
+  let (nV, ts) ← pNat ts
+  let (vars, ts) ← pMany pVar nV ts
+  let (_, ts) ← pTok "I" ts
+  let (nI, ts) ← pNat ts
+  let size (v : Nat) : Option Nat := (vars[v]?).map (fun vv => if vv.entity = 0 then nP else nG)
+  let pInput : Parser (Nat × Period × Val) := fun ts => do
+    let (v, ts) ← pNat ts
+    let (p, ts) ← pPeriod ts
+    let n ← size v
+    let (xs, ts) ← pMany pInt n ts
+    pure ((v, p, xs), ts)
+  let (inputs, ts) ← pMany pInput nI ts
+  let (_, ts) ← pTok "R" ts
+  let (nR, ts) ← pNat ts
+  let (reqs, ts) ← pMany (pXReq size) nR ts
+  pure ({ x := { nP := nP, nG := nG, mem := mem, msl := msl, vars := vars, inputs := inputs, roles := roles,
+                 params := params, outputs := outputs }, reqs := reqs }, ts)
+
+/-- reads and parameter reads of every retained computed node -/
+def showXReads (x : XDecl) (sys : Sys Period) (s : St Period) : String :=
+  let rec dedup (seen : List (Node Period)) : Cache Period → List (String × String)
+    | [] => []
+    | (k, _) :: r =>
+      if seen.contains k then dedup seen r
+      else
+        let rs := readsOf sys k
+        let ps : List (Nat × Int × Int) := match x.vars[k.1]? with
+          | none => []
+          | some vv => match formulaInForce vv (startOrdOf k.2) with
+            | none => []
+            | some e => (paramReadsE x k.2 e).1
+        if rs.isEmpty ∧ ps.isEmpty then dedup (k :: seen) r
+        else
+          let a := "+".intercalate (rs.map (fun j => let j' := sys.slot j; s!"{j'.1}@{periodKey j'.2}"))
+          let b := if ps.isEmpty then "" else "$" ++ "+".intercalate (ps.map (fun q => s!"{q.1}:{q.2.1}:{q.2.2}"))
+          (s!"{k.1}@{periodKey k.2}", a ++ b) :: dedup (k :: seen) r
+  let sorted := (dedup [] s.cache).toArray.qsort (fun a b => a.1 < b.1) |>.toList
+  "T:" ++ ";".intercalate (sorted.map (fun e => e.1 ++ ">" ++ e.2)) |>.replace ";" "&"
+
+/-- the log of a request (`runL`), one entry per calculation opened, in chronological order:
+    `<node>=<result>><read>+<read>…` joined by `&`; results: the values, or `E` for an error -/
+def showLog (l : Log Period) : String :=
+  let res : Res → String
+    | .ok x => showVal x
+    | .error _ => "E"
+  "&".intercalate (l.map (fun en =>
+    s!"{en.1.1}@{periodKey en.1.2}={res en.2.1}>" ++ "+".intercalate (en.2.2.map (fun kr => s!"{kr.1.1}@{periodKey kr.1.2}"))))
+
+/-- a top-level `calculate` through the instrumented machine (`runL` then the purge of `request`) -/
+def doCalcL (sys : Sys Period) (s : St Period) (k : Except String (Node Period)) : Option Res × St Period × String :=
+  match k with
+  | .error _ => (some (.error .fault), s, "")
+  | .ok k =>
+    match runL sys FUEL s k.1 k.2 with
+    | none => (none, s, "")
+    | some (r, _, s', l) => (some r, (if s'.stack = [] then purge sys s' else s'), showLog l)
+
+def stateMark (s : St Period) : String := if s.stack.isEmpty ∧ s.inval.isEmpty then "" else "#STATE"
+
+def runXCase (c : XSimCase) : String :=
+  let rec go (armed : List Nat) (x : XDecl) (s : St Period) (out : List String) : List XReq → List String × XDecl × St Period
+    | [] => (out.reverse, x, s)
+    | .arm i :: r => go (i :: armed) x s ("-" :: out) r
+    | .disarm i :: r => go (armed.filter (· ≠ i)) x s ("-" :: out) r
+    | .reads :: r => go armed x s (showXReads x (xelabSys x armed) s :: out) r
+    | .badp _ :: r => go armed x s ("ERR" :: out) r
+    | .out _ _ :: r => go armed x s ("BAD" :: out) r      -- resolved before the run
+    | .calc v p :: r =>
+      let sys := xelabSys x armed
+      let (res, s') := doCalc sys s (requestNode x.toDecl v p)
+      go armed x s' ((showRes res ++ stateMark s') :: out) r
+    | .tcalc v p :: r =>
+      let sys := xelabSys x armed
+      let (res, s', lg) := doCalcL sys s (requestNode x.toDecl v p)
+      -- a request refused before the machine starts is still a recorded calculation (with no result, no read)
+      let lg := match requestNode x.toDecl v p with
+        | .error _ => s!"{v}@{periodKey p}=E>"
+        | .ok _ => lg
+      go armed x s' ((showRes res ++ stateMark s' ++ "#L:" ++ lg) :: out) r
+    | .add v p :: r =>
+      let sys := xelabSys x armed
+      match requestAddNodes x.toDecl v p with
+      | .error _ => go armed x s ("ERR" :: out) r
+      | .ok ks =>
+        let (res, s') := doAdd sys s ks
+        go armed x s' ((showRes res ++ stateMark s') :: out) r
+    | .div v p :: r =>
+      let sys := xelabSys x armed
+      match requestDivNode x.toDecl v p with
+      | .error _ => go armed x s ("ERR" :: out) r
+      | .ok (k, n) =>
+        let (res, s') := doCalc sys s (.ok k)
+        let shown := match res with
+          | some (.ok y) => "ok:" ++ showVal y ++ "/" ++ toString n
+          | other => showRes other
+        go armed x s' ((shown ++ stateMark s') :: out) r
+    | .get v p :: r =>
+      let sys := xelabSys x armed
+      let o := match x.vars[v]? with
+        | none => "ERR"
+        | some _ => match getArray sys s (v, p) with
+          | some y => "g:" ++ showVal y
+          | none => "g:none"
+      go armed x s (o :: out) r
+    | .del v q :: r =>
+      match x.vars[v]? with
+      | none => go armed x s ("ERR" :: out) r
+      | some _ =>
+        let x' : XDecl := { x with inputs := deleteInputs x.toDecl v q }
+        go armed x' { s with cache := deleteCached x.toDecl v q s.cache } ("-" :: out) r
+    | .set v q y :: r =>
+      match setInputOutcome x.toDecl v q with
+      | .refused => go armed x s ("ERR" :: out) r
+      | .ignored => go armed x s ("-" :: out) r
+      | .stored =>
+        -- the value replaces whatever is stored under the slot
+        let key := storageKey x.toDecl v q
+        let inputs' := (v, key, y) :: x.inputs.filter (fun i => !(i.1 = v && storageKey x.toDecl v i.2.1 = key))
+        let x' : XDecl := { x with inputs := inputs' }
+        go armed x' { s with cache := s.cache.filter (fun e => !(e.1 = (v, key))) } ("-" :: out) r
+  -- `calculate_output` forwards to the request its variable names (an unknown variable: any of them raises)
+  let resolve : XReq → XReq
+    | .out v p => (match outputKind c.x v with | .plain => .calc v p | .add => .add v p | .divide => .div v p)
+    | r => r
+  let (outs, x, s) := go [] c.x St.init [] (c.reqs.map resolve)
+  ";".intercalate outs ++ "|" ++ showKnown x.toDecl s
+
 def handleSim (args : List String) : String :=
-  match pCase args with
-  | some (c, []) => runCase c
+  match pXCase args with
+  | some (c, []) => runXCase c
   | _ => "BAD"
 
 end OFCore.Drv
